@@ -389,6 +389,8 @@ class Driver:
 
         async def execute():
             TR.emit("cmd", name=name, args=args)
+            if hasattr(drv, "on_cmd_start"):
+                drv.on_cmd_start(name, args)
             TR.ctx.append("cmd:" + name)
             ret = None
             try:
